@@ -279,9 +279,19 @@ def forbidden_scan():
     for f in glob.glob(os.path.join(COQ, "**/*.v"), recursive=True):
         txt = open(f).read()
         txt = re.sub(r"\(\*.*?\*\)", "", txt, flags=re.S)
+        stack = []
         for i, line in enumerate(txt.splitlines(), 1):
             if pat.search(line):
                 bad.append("%s:%d: %s" % (os.path.relpath(f, VERIF), i, line.strip()))
+            # a Variable/Hypothesis/Context outside a Section declares an axiom
+            m = re.match(r"\s*(Section|Module Type|Module)\s+(?:Import\s+|Export\s+)?([A-Za-z_][\w']*)\s*([^.]*)\.", line)
+            if m and ":=" not in m.group(3):
+                stack.append(("S" if m.group(1) == "Section" else "M", m.group(2)))
+            m = re.match(r"\s*End\s+([A-Za-z_][\w']*)\s*\.", line)
+            if m and stack:
+                stack.pop()
+            if re.match(r"\s*(Local\s+|Global\s+)?(Variable|Variables|Hypothesis|Hypotheses|Context)\b", line) and not any(k == "S" for k, _ in stack):
+                bad.append("%s:%d: section-less %s" % (os.path.relpath(f, VERIF), i, line.strip()))
     return bad
 
 
